@@ -244,6 +244,13 @@ func (s *sim) corrupt(p *pkgState, st Step) {
 	switch st.Mode {
 	case "stale":
 		data = []byte(genHeader + "package " + p.name + "\n\n// Injectors from wire.go:\n\nfunc InitBar() Bar {\n\tfoo := ProvideFooOld()\n\tbar := ProvideBar(foo)\n\treturn bar\n}\n\nfunc InitGone() Gone {\n\treturn Gone{}\n}\n")
+	case "noted":
+		// a previous output that somebody annotated by hand above the generated marker
+		cur := s.outputs(p.name)[name]
+		if len(cur) == 0 || !inPremise(cur) {
+			cur = []byte(genHeader + "package " + p.name + "\n\nfunc InitBar() Bar {\n\tfoo := ProvideFooOld()\n\tbar := ProvideBar(foo)\n\treturn bar\n}\n")
+		}
+		data = append([]byte("// NOTE(bob): hand-edited, do not lose this line.\n// Licensed under the Example License.\n\n"), cur...)
 	case "noncompiling":
 		data = []byte(genHeader + "package " + p.name + "\n\nfunc InitBar( {\n\treturn 1 +\n")
 	case "garbage":
@@ -805,6 +812,8 @@ func modeBefore(data []byte) string {
 		return ""
 	case len(data) == 0:
 		return "empty"
+	case bytes.Contains(data, []byte("NOTE(bob)")):
+		return "noted"
 	case bytes.Contains(data, []byte("padding padding")):
 		return "longer_stale"
 	case bytes.Contains(data, []byte("InitGone")):
